@@ -80,11 +80,15 @@ EventuallyDelivered == \A d \in Dirs : [](<>(wclosed["up"] \/ wclosed["down"] \/
 ClosePropagates == \A d \in Dirs : (wclosed[d] ~> (eof[d] \/ wclosed[Other(d)]))
 
 (*********** token bucket (golang.org/x/time/rate as used by pkg/util/limit) ***********)
-\* Samples are <<ms, cumulative bytes>>; between any two samples at most rate x interval + burst (+ slack) bytes pass.
+\* Samples are <<ms, cumulative bytes delivered at the endpoints, anchor>>. The limiter sits where bytes enter the transport; what the
+\* endpoints see lags behind by what is in flight, and after a stall of the transport (kcp / quic retransmitting under load) the
+\* backlog arrives at once. A window is therefore judged from an anchor: a moment at which no connection of the proxy was open, so
+\* nothing had passed the limiter without being delivered. From there to any later sample at most rate x interval + burst (+ slack
+\* for the sampling granularity) bytes can have been delivered.
 \* (quantifiers, not a recursive operator: TLC's evaluation context grows with the recursion depth, and a trace with a few hundred
 \* samples took minutes that way)
 RateOK(s, rate, burst, slack) ==
   /\ Len(s) = 0 \/ s[1][2] <= (rate \div 1000) * s[1][1] + burst + slack
-  /\ \A i \in 1..Len(s) : \A j \in (i + 1)..Len(s) :
+  /\ \A i \in 1..Len(s) : s[i][3] = 1 => \A j \in (i + 1)..Len(s) :
         s[j][2] - s[i][2] <= (rate \div 1000) * (s[j][1] - s[i][1]) + burst + slack
 =============================================================================
